@@ -132,6 +132,8 @@ def tmpl(name, args):
         return ("bi", "round", ("bin", "truediv", X, ("lit", 4)), (("lit", 1),))
     if name == "dyn":
         return ("dyn", args[0], ("loc", args[1]))
+    if name == "dynx":   # a computed key that is an EXPRESSION of a reference: l[1 - i]
+        return ("dyn", args[0], ("bin", "sub", ("lit", 1), ("loc", args[1])))
     if name == "lt":
         return ("bin", "lt", X, ("lit", 4))
     if name == "eqx":
@@ -203,10 +205,10 @@ def build_universe(world, cfg):
                 for C in world["containers"]:
                     if not T.overlap(C, L):
                         ops.append(("def", L, tmpl(name, (C,))))
-            elif name == "dyn":
+            elif name in ("dyn", "dynx"):
                 for C in world["containers"]:
                     if il and not T.overlap(C, L) and isinstance(world["containers"][C], list):
-                        ops.append(("def", L, tmpl("dyn", (C, il))))
+                        ops.append(("def", L, tmpl(name, (C, il))))
     for opname, operand in cfg.get("iops", ()):
         for L in leaves:
             if operand[0] == "src":
@@ -539,7 +541,32 @@ class Verdict:
         self.detail = detail
 
 
+def defs_problem(w, ns):
+    """the SET of definitions the manager holds must be the one the reference model holds (which locations have an expression, which
+    function / knob tasks are registered): a state whose contents agree but whose definitions do not has already left the model"""
+    exp = set()
+    for tid in ns.tasks:
+        exp.add(w.ref(tid[1]) if tid[0] == "E" else tid[1])
+    try:
+        got = set(w.m.tasks)
+    except Exception as e:  # noqa
+        return f"cannot read Manager.tasks: {type(e).__name__}"
+    if got != exp:
+        return (f"definitions differ from the reference model: the manager holds {sorted(map(str, got))}, "
+                f"the model {sorted(map(str, exp))}")
+    return None
+
+
 def judge(w, ms_pre, op, ns, ex, exc):
+    v = _judge(w, ms_pre, op, ns, ex, exc)
+    if v.kind == "ok":
+        bad = defs_problem(w, ns)
+        if bad:
+            return Verdict("violation", bad)
+    return v
+
+
+def _judge(w, ms_pre, op, ns, ex, exc):
     """Compare one executed transition with the model's prescription."""
     if op[0] == "fsetset":
         op = ("set", op[1], op[2])      # a failed-then-repeated assignment is judged as the assignment
